@@ -85,6 +85,10 @@ class G:
         if k == 'lencall':
             # a builtin name that may be shadowed at any level
             self.kinds.add('shadow_builtin')
+            if r.random() < 0.3:
+                # explicit calls of the names that literal / index sugar maps to: a binding of that name at any level wins
+                return r.choice([['call', 'list', [self.body(params, 0), ['num', '2']], 'plain'], ['call', 'dict', [], 'plain'],
+                                 ['call', 'list', [], 'plain']])
             return ['call', r.choice(['len', 'max']), [['list', [self.body(params, 0), ['num', '2']]]], 'plain']
         if k == 'nested':
             fns = [n for n, v in self.model.host.items() if getattr(v, '_sim_kind', '') == 'lambda'] + self.local_fns
@@ -102,7 +106,7 @@ class G:
         r = self.r
         fname = r.choice(['f', 'g', 'h'])
         n = r.choice([1, 1, 2])
-        params = r.sample(POOL[:4] + ['p'], n)
+        params = r.sample(POOL[:4] + ['p'] + (['list', 'dict'] if r.random() < 0.25 else []), n)
         if any(p in self.model.host for p in params):
             self.kinds.add('shadow_host')
         if r.random() < 0.15 and n == 1:
@@ -156,10 +160,17 @@ class G:
             st, fname, n = self.define()
             stmts.append(st)
         if r.random() < 0.3:
-            v = r.choice(POOL)
-            if v in ('len', 'max'):
+            v = r.choice(POOL + (['list', 'dict'] if r.random() < 0.3 else []))
+            if v in ('list', 'dict'):
                 self.kinds.add('shadow_builtin')
-            stmts.append(['assign', v, r.choice([gen.num_tree(r), ['str', 'top-' + v], ['list', [['num', '1']]], ['none']])])
+                stmts.append(['assign', v, ['lambda', ['q'], ['str', 'shadowed-' + v]]])
+                v = None
+            if v is None:
+                pass
+            else:
+                if v in ('len', 'max'):
+                    self.kinds.add('shadow_builtin')
+                stmts.append(['assign', v, r.choice([gen.num_tree(r), ['str', 'top-' + v], ['list', [['num', '1']]], ['none']])])
         for _ in range(r.randint(1, 3)):
             u = self.use(fname, n)
             x = r.random()
